@@ -212,6 +212,7 @@ structure IoSpec where
   itype : Nat
   otype : Nat
   flags : Nat
+  e : Bool := false   -- io_spec.e != NULL (set by `soxr_io_spec` for invalid datatypes; `soxr_create` never looks at it)
   deriving DecidableEq, Repr, Inhabited
 
 structure RtSpec where
@@ -497,7 +498,7 @@ inductive Op where
   | setIoRatio (r : Dbl)
   | setChannels (n : Nat)
   | setError (e : Option ErrorKind)
-  | process (inNull outNull : Bool) (olen : Nat)
+  | process (inNull outNull : Bool) (olen : Nat) (fn : FnObs)
   | output (outNull : Bool) (olen : Nat) (fn : FnObs)
   | delay
   | clear
@@ -547,28 +548,20 @@ def setError (s : Api) (e : Option ErrorKind) : Api × Ret :=
   if s.error = none ∧ e ≠ none then (s, .status none)
   else ({ s with error := e }, .status none)
 
-def process (s : Api) (inNull outNull : Bool) (olen : Nat) : Api × Ret :=
+/-- `soxr_process`: `odone` and the returned `p->error`.  `fn`: what a registered input function did when the embedded
+    `soxr_output` called it. -/
+def process (s : Api) (inNull outNull : Bool) (olen : Nat) (fn : FnObs) : Api × Ret :=
   if outNull && inNull then (s, .frames .zero s.error)
   else if s.bothSplit then
-    -- the split-in/split-out path never looks at p->error
+    -- the split-in/split-out path never looks at p->error (and never calls the input function)
     if !s.built || outNull then (s, .misuse)
     else (s, .frames .any s.error)
   else match s.error with
-    | some e => (s, .frames .zero (some e))
+    | some e => (s, .frames .zero (some e))          -- soxr_input and soxr_output both return 0 at once
     | none =>
-      if !s.built then (s, .misuse)
-      else if outNull && decide (0 < olen) then ({ s with error := some .nullOutput }, .frames .zero (some .nullOutput))
-      else (s, .frames .any none)
-
-def output (s : Api) (outNull : Bool) (olen : Nat) (fn : FnObs) : Api × Ret :=
-  match s.error with
-  | some _ => (s, .count .zero)
-  | none =>
-    if !s.built then (s, .misuse)
-    else if outNull && decide (0 < olen) then ({ s with error := some .nullOutput }, .count .zero)
-    else match fn with
-      | .failed => ({ s with error := some .inputFailure }, .count .any)
-      | .quiet => (s, .count .any)
+      match output s outNull olen fn with
+      | (s', .count n) => (s', .frames n s'.error)
+      | (s', r) => (s', r)
 
 def delay (s : Api) : Api × Ret :=
   if s.error.isSome || !s.built then (s, .count .zero) else (s, .count .any)
@@ -581,7 +574,7 @@ def step (s : Api) : Op → Api × Ret
   | .setIoRatio r => setIoRatio s r
   | .setChannels n => setChannels s n
   | .setError e => setError s e
-  | .process i o n => process s i o n
+  | .process i o n fn => process s i o n fn
   | .output o n fn => output s o n fn
   | .delay => delay s
   | .clear => clear s
